@@ -107,6 +107,20 @@ pub fn run(opts: &Opts) -> Report {
             let (op_desc, model_line, impl_line): (String, String, String) = match choice {
                 0..=2 => {
                     let r = store.compaction_cut_points_v1(&t, CompactionCutPointsV1Request { stride_messages: stride, limit: other.map(|x| x as u32) });
+                    // oracle (no model involved): a cut point counts as checkpointed exactly when a
+                    // checkpoint frame for that seq exists, the latest such frame in stream order winning
+                    if let Ok(resp) = &r {
+                        for c in &resp.cut_points {
+                            let latest = thread_frames.iter().rev().find(|f| f["type"] == "continuity_compaction_checkpoint_created" && f["to_seq"].as_u64() == Some(c.to_seq)).and_then(|f| f["checkpoint_id"].as_str());
+                            if c.already_checkpointed != latest.is_some() || c.latest_checkpoint_id.as_deref() != latest {
+                                rep.oracle_failure(
+                                    "C09|cut-point-checkpointed-flag-wrong",
+                                    &format!("cut point at seq {} reported already_checkpointed={} latest={:?}; the thread's latest checkpoint frame for that seq is {:?}", c.to_seq, c.already_checkpointed, c.latest_checkpoint_id, latest),
+                                    json!({"case": case_no, "stride": stride, "limit": other, "frames": thread_frames.iter().map(|f| format!("{}@{}{}", f["type"].as_str().unwrap_or("?").replace("continuity_", ""), f["seq"], f["to_seq"].as_u64().map(|q| format!("->to_seq {q}")).unwrap_or_default())).collect::<Vec<_>>()}),
+                                );
+                            }
+                        }
+                    }
                     let impl_line = match r {
                         Err(e) => format!("err {e}"),
                         Ok(resp) => format!(
@@ -138,6 +152,19 @@ pub fn run(opts: &Opts) -> Report {
                     let impl_line = match r {
                         Err(e) => format!("err {e}"),
                         Ok(resp) => {
+                            // oracle: with every cut point of the stride already carrying a checkpoint
+                            // frame, a repeated run has nothing to do and appends nothing
+                            {
+                                let st = resp.stride_messages.max(1) as usize;
+                                let msg_seqs: Vec<u64> = thread_frames.iter().filter(|f| f["type"] == "continuity_message_appended").filter_map(|f| f["seq"].as_u64()).collect();
+                                let all_done = msg_seqs.iter().enumerate().filter(|(i, _)| (i + 1) % st == 0).all(|(_, q)| thread_frames.iter().any(|f| f["type"] == "continuity_compaction_checkpoint_created" && f["to_seq"].as_u64() == Some(*q)));
+                                if all_done {
+                                    rep.count("auto_with_nothing_to_do");
+                                    if !appended.is_empty() {
+                                        rep.oracle_failure("C09|auto-appended-with-nothing-to-do", &format!("every cut point of stride {st} has a checkpoint frame, yet auto-compaction appended {} frames", appended.len()), json!({"case": case_no, "stride": stride, "appended": show_appended(&appended)}));
+                                    }
+                                }
+                            }
                             // oracle: created checkpoints reference readable summaries whose coverage matches
                             for c in &resp.result {
                                 let blob = ts.ws.join(".rip/artifacts/blobs").join(&c.summary_artifact_id);
